@@ -21,6 +21,16 @@
 //	query.go    selectSet, selectSetForRecursion; inline_tables.go InlineTableMap.Set → token lists
 //	comparison.go Like, matchText, matchTextTail, matchTextTailOnce, matchCondition; eval.go evalLike → token lists
 //	                                           (Model/Like.lean mirrors them; Props/C03Like.lean: like_impl_eq_spec)
+//	load_view.go loadView, `case parser.Join` → Gen.lateralRejected : JDir → Bool (the refused directions of LATERAL),
+//	                                           Gen.lateralHeaderAt : Nat → Bool (the record whose join supplies the header),
+//	                                           the guard, prelude, callback, assembly of the LATERAL branch as token lists
+//	            LoadView                     → Gen.fromListJoinType / fromListJoinDir (the join a comma stands for), its loop
+//	            joinViews                    → Gen.joinTypeDefaulted, Gen.joinDispatched (functions); join.go OuterJoin →
+//	                                           Gen.outerDirection                 (Model/Lateral.lean mirrors them)
+//	eval.go     Evaluate                     → Gen.evalDispatch (node type → evaluating function)
+//	            evalExists, evalSubqueryForValue, evalSubqueryForArray → Gen.existsOutcome / scalarOutcome / arrayOutcome
+//	                                           : (fields records : Nat) → SubOut (the chain of length tests), bodies;
+//	            evalIn / evalAny / evalAll / evalArray → token lists, Gen.inQuantifiers
 //
 // Token lists: compound statements are kept as structure (`if(<cond>){`, `}else{`, `for(<header>){`, `switch(<tag>){`,
 // `case(<list>):`, `}`), simple statements as their source text without white space - calls stay visible, nothing
@@ -1368,6 +1378,451 @@ func selectCallsWith(q *ast.File) string {
 	return "recursionRoot=" + canon(c.Args[len(c.Args)-1])
 }
 
+// ---------- load_view.go: the LATERAL branch of loadView; LoadView's comma join; joinViews' join type ----------
+
+func jdirConst(s string) string {
+	switch s {
+	case "parser.LEFT":
+		return "JDir.left"
+	case "parser.RIGHT":
+		return "JDir.right"
+	case "parser.FULL":
+		return "JDir.full"
+	}
+	return ""
+}
+
+func jtypeConst(s string) string {
+	switch s {
+	case "parser.CROSS":
+		return "JType.cross"
+	case "parser.INNER":
+		return "JType.inner"
+	case "parser.OUTER":
+		return "JType.outer"
+	}
+	return ""
+}
+
+func joinFnConst(s string) string {
+	switch s {
+	case "CrossJoin":
+		return "JoinFn.cross"
+	case "InnerJoin":
+		return "JoinFn.inner"
+	case "OuterJoin":
+		return "JoinFn.outer"
+	}
+	return ""
+}
+
+func genLateral(out *strings.Builder) {
+	f := parseFile("lib/query/load_view.go")
+	lv := findFunc(f, "", "loadView")
+	// switch table.Object.(type) { … case parser.Join: … }
+	var joinCase *ast.CaseClause
+	ast.Inspect(lv.Body, func(n ast.Node) bool {
+		if ts, ok := n.(*ast.TypeSwitchStmt); ok && joinCase == nil {
+			for _, c := range ts.Body.List {
+				cc := c.(*ast.CaseClause)
+				if len(cc.List) == 1 && canon(cc.List[0]) == "parser.Join" {
+					joinCase = cc
+				}
+			}
+		}
+		return true
+	})
+	if joinCase == nil {
+		die("%s: loadView: `case parser.Join` not found", pos(lv))
+	}
+	var latIf *ast.IfStmt
+	for _, s := range joinCase.Body {
+		if is, ok := s.(*ast.IfStmt); ok && is.Init != nil && strings.Contains(canon(is.Cond), "Lateral") {
+			if latIf != nil {
+				die("%s: loadView: a second LATERAL test", pos(is))
+			}
+			latIf = is
+		}
+	}
+	if latIf == nil {
+		die("%s: loadView: the LATERAL test of `case parser.Join` was not found", pos(joinCase))
+	}
+	out.WriteString(leanList("lateralGuard", "`loadView`, `case parser.Join`: when the LATERAL branch is taken", []string{canon(latIf.Init), canon(latIf.Cond)}))
+	out.WriteString(leanList("joinCaseBody", "`loadView`, `case parser.Join` as a whole (left side first, then LATERAL or the plain join)", stmtTokens(joinCase.Body)))
+
+	// the refused directions: the first statement of the branch
+	sw, ok := latIf.Body.List[0].(*ast.SwitchStmt)
+	if !ok || canon(sw.Tag) != "join.Direction.Token" || len(sw.Body.List) != 1 {
+		die("%s: loadView: the LATERAL branch does not start with the one-case `switch join.Direction.Token`", pos(latIf.Body))
+	}
+	rc := sw.Body.List[0].(*ast.CaseClause)
+	if rc.List == nil || len(rc.Body) != 1 || canon(rc.Body[0]) != "returnnil,NewIncorrectLateralUsageError(t)" {
+		die("%s: loadView: the direction switch of LATERAL is not `case …: return nil, NewIncorrectLateralUsageError(t)`", pos(rc))
+	}
+	out.WriteString("/-- `loadView`, LATERAL: the directions refused with IncorrectLateralUsage before any record is looked at -/\n")
+	out.WriteString("def lateralRejected (d : JDir) : Bool :=\n  match d with\n")
+	for _, e := range rc.List {
+		d := jdirConst(canon(e))
+		if d == "" {
+			die("%s: loadView: unknown direction %s", pos(e), src(e))
+		}
+		out.WriteString("  | " + d + " => true\n")
+	}
+	out.WriteString("  | _ => false\n\n")
+
+	// the callback of EvaluateSequentially, the header guard, the assembly
+	var evIf *ast.IfStmt
+	evIdx := -1
+	for i, s := range latIf.Body.List {
+		if is, ok := s.(*ast.IfStmt); ok && is.Init != nil && strings.HasPrefix(canon(is.Init), "err:=EvaluateSequentially(ctx,scope,view,func(") {
+			evIf, evIdx = is, i
+		}
+	}
+	if evIf == nil {
+		die("%s: loadView: LATERAL does not go through EvaluateSequentially(ctx, scope, view, func…)", pos(latIf))
+	}
+	call := evIf.Init.(*ast.AssignStmt).Rhs[0].(*ast.CallExpr)
+	fl, ok := call.Args[len(call.Args)-1].(*ast.FuncLit)
+	if !ok || fieldList(fl.Type.Params) != "seqScope *ReferenceScope,rIdx int" {
+		die("%s: loadView: the LATERAL callback is not func(seqScope *ReferenceScope, rIdx int)", pos(call))
+	}
+	out.WriteString(leanList("lateralPrelude", "`loadView`, LATERAL: the statements before the records are evaluated", stmtTokens(latIf.Body.List[:evIdx])))
+	out.WriteString(leanList("lateralCallback", "`loadView`, LATERAL: the callback run once per left record", stmtTokens(fl.Body.List)))
+	out.WriteString(leanList("lateralAssembly", "`loadView`, LATERAL: what is done with the per-record results", stmtTokens(latIf.Body.List[evIdx+1:])))
+	var hdrIf *ast.IfStmt
+	for _, s := range fl.Body.List {
+		if is, ok := s.(*ast.IfStmt); ok && len(is.Body.List) == 1 && canon(is.Body.List[0]) == "hfields=calcView.Header" {
+			hdrIf = is
+		}
+	}
+	if hdrIf == nil || hdrIf.Else != nil || hdrIf.Init != nil {
+		die("%s: loadView: the LATERAL callback does not assign `hfields = calcView.Header` under a plain if", pos(fl))
+	}
+	be, ok := hdrIf.Cond.(*ast.BinaryExpr)
+	if !ok || be.Op != token.EQL || canon(be.X) != "rIdx" {
+		die("%s: loadView: the header of a LATERAL join is taken under `%s`, not `rIdx == <number>`", pos(hdrIf), src(hdrIf.Cond))
+	}
+	lit, ok := be.Y.(*ast.BasicLit)
+	if !ok || lit.Kind != token.INT {
+		die("%s: loadView: `rIdx == %s`", pos(hdrIf), src(be.Y))
+	}
+	out.WriteString("/-- `loadView`, LATERAL: the record whose join supplies the header of the result -/\n")
+	out.WriteString("def lateralHeaderAt (rIdx : Nat) : Bool := rIdx == " + lit.Value + "\n\n")
+	// which views the per-record join gets, and that the slot of the record receives the result
+	var joinCall, slot string
+	for _, s := range fl.Body.List {
+		c := canon(s)
+		if strings.Contains(c, "joinViews(") {
+			joinCall = c
+		}
+		if strings.HasPrefix(c, "resultSetList[") {
+			slot = c
+		}
+	}
+	out.WriteString(leanList("lateralJoinAndSlot", "`loadView`, LATERAL: the per-record join and where its records go", []string{joinCall, slot}))
+
+	// LoadView: the comma-separated FROM list
+	LV := findFunc(f, "", "LoadView")
+	var loop *ast.ForStmt
+	for _, s := range LV.Body.List {
+		if fs, ok := s.(*ast.ForStmt); ok {
+			loop = fs
+		}
+	}
+	if loop == nil {
+		die("%s: LoadView: the loop over the FROM list was not found", pos(LV))
+	}
+	out.WriteString(leanList("fromListLoop", "`LoadView`: how a comma-separated FROM list becomes joins", append([]string{"for(" + canon(loop.Init) + ";" + canon(loop.Cond) + ";" + canon(loop.Post) + "){"}, append(stmtTokens(loop.Body.List), "}")...)))
+	var jl *ast.CompositeLit
+	ast.Inspect(loop.Body, func(n ast.Node) bool {
+		if cl, ok := n.(*ast.CompositeLit); ok && canon(cl.Type) == "parser.Join" {
+			jl = cl
+		}
+		return true
+	})
+	if jl == nil {
+		die("%s: LoadView: no parser.Join literal in the FROM-list loop", pos(loop))
+	}
+	jt, jd := "JType.absent", "JDir.absent"
+	for _, el := range jl.Elts {
+		kv := el.(*ast.KeyValueExpr)
+		switch canon(kv.Key) {
+		case "Table", "JoinTable":
+		case "JoinType":
+			c := canon(kv.Value)
+			if !strings.HasPrefix(c, "parser.Token{Token:") || jtypeConst(strings.TrimSuffix(strings.TrimPrefix(c, "parser.Token{Token:"), "}")) == "" {
+				die("%s: LoadView: JoinType %s", pos(kv), c)
+			}
+			jt = jtypeConst(strings.TrimSuffix(strings.TrimPrefix(c, "parser.Token{Token:"), "}"))
+		case "Direction":
+			c := canon(kv.Value)
+			d := jdirConst(strings.TrimSuffix(strings.TrimPrefix(c, "parser.Token{Token:"), "}"))
+			if d == "" {
+				die("%s: LoadView: Direction %s", pos(kv), c)
+			}
+			jd = d
+		default:
+			die("%s: LoadView: the join of a FROM list sets %s", pos(kv), canon(kv.Key))
+		}
+	}
+	out.WriteString("/-- `LoadView`: the join a comma in the FROM list stands for -/\n")
+	out.WriteString("def fromListJoinType : JType := " + jt + "\ndef fromListJoinDir : JDir := " + jd + "\n\n")
+
+	// joinViews: the join type when none is written, and the dispatch, as functions
+	jv := findFunc(f, "", "joinViews")
+	var defIf *ast.IfStmt
+	var dsw *ast.SwitchStmt
+	sawInit := false
+	for _, s := range jv.Body.List {
+		switch x := s.(type) {
+		case *ast.AssignStmt:
+			if canon(x) == "joinType:=join.JoinType.Token" {
+				sawInit = true
+			}
+		case *ast.IfStmt:
+			if canon(x.Cond) == "join.JoinType.IsEmpty()" && defIf == nil {
+				defIf = x
+			}
+		case *ast.SwitchStmt:
+			if canon(x.Tag) == "joinType" && dsw == nil {
+				dsw = x
+			}
+		}
+	}
+	if !sawInit || defIf == nil || dsw == nil || defIf.Else != nil || len(defIf.Body.List) != 1 {
+		die("%s: joinViews: `joinType := join.JoinType.Token; if join.JoinType.IsEmpty() {…}; switch joinType` not found", pos(jv))
+	}
+	in, ok := defIf.Body.List[0].(*ast.IfStmt)
+	if !ok || canon(in.Cond) != "join.Direction.IsEmpty()" || in.Else == nil || len(in.Body.List) != 1 {
+		die("%s: joinViews: the default join type is not decided by `if join.Direction.IsEmpty() {…} else {…}`", pos(defIf))
+	}
+	eb, ok := in.Else.(*ast.BlockStmt)
+	if !ok || len(eb.List) != 1 {
+		die("%s: joinViews: else branch of the default join type", pos(in))
+	}
+	asg := func(s ast.Stmt) string {
+		c := canon(s)
+		if !strings.HasPrefix(c, "joinType=") || jtypeConst(strings.TrimPrefix(c, "joinType=")) == "" {
+			die("%s: joinViews: `%s` in the default join type", pos(s), src(s))
+		}
+		return jtypeConst(strings.TrimPrefix(c, "joinType="))
+	}
+	out.WriteString("/-- `joinViews`: the join type after the defaults (nothing written: by the direction) -/\n")
+	out.WriteString("def joinTypeDefaulted (jt : JType) (dir : JDir) : JType :=\n  match jt with\n  | JType.absent =>\n    (match dir with\n     | JDir.absent => " + asg(in.Body.List[0]) + "\n     | _ => " + asg(eb.List[0]) + ")\n  | t => t\n\n")
+	out.WriteString("/-- `joinViews`: the join function called for a join type (no case: the view is left as it is) -/\n")
+	out.WriteString("def joinDispatched (jt : JType) : Option JoinFn :=\n  match jt with\n")
+	for _, c := range dsw.Body.List {
+		cc := c.(*ast.CaseClause)
+		if len(cc.List) != 1 || len(cc.Body) != 1 {
+			die("%s: joinViews: dispatch case", pos(cc))
+		}
+		k := jtypeConst(canon(cc.List[0]))
+		is, ok := cc.Body[0].(*ast.IfStmt)
+		if k == "" || !ok || is.Init == nil {
+			die("%s: joinViews: dispatch case %s", pos(cc), src(cc.List[0]))
+		}
+		cl, ok := is.Init.(*ast.AssignStmt).Rhs[0].(*ast.CallExpr)
+		if !ok || joinFnConst(canon(cl.Fun)) == "" {
+			die("%s: joinViews: dispatch case calls %s", pos(cc), src(is.Init))
+		}
+		out.WriteString("  | " + k + " => some " + joinFnConst(canon(cl.Fun)) + "\n")
+	}
+	out.WriteString("  | _ => none\n\n")
+
+	// OuterJoin: the direction when none is given
+	j := parseFile("lib/query/join.go")
+	oj := findFunc(j, "", "OuterJoin")
+	first, ok := oj.Body.List[0].(*ast.IfStmt)
+	if !ok || canon(first.Cond) != "direction==parser.TokenUndefined" || len(first.Body.List) != 1 || first.Else != nil {
+		die("%s: OuterJoin: does not start with `if direction == parser.TokenUndefined {…}`", pos(oj))
+	}
+	dc := canon(first.Body.List[0])
+	if !strings.HasPrefix(dc, "direction=") || dirConst(strings.TrimPrefix(dc, "direction=")) == "" {
+		die("%s: OuterJoin: `%s`", pos(first), dc)
+	}
+	out.WriteString("/-- `OuterJoin`: the direction the loops work with -/\n")
+	out.WriteString("def outerDirection (d : JDir) : Dir :=\n  match d with\n  | JDir.absent => " + dirConst(strings.TrimPrefix(dc, "direction=")) + "\n  | JDir.left => Dir.left\n  | JDir.right => Dir.right\n  | JDir.full => Dir.full\n\n")
+}
+
+// ---------- eval.go: which function evaluates which node; the sub-query functions ----------
+
+func lenTest(e ast.Expr) string {
+	// view.RecordLen() < 1, 1 < view.FieldLen(), …  over the variables rl / fl
+	be, ok := e.(*ast.BinaryExpr)
+	if !ok {
+		die("%s: sub-query test `%s` outside the subset", pos(e), src(e))
+	}
+	side := func(x ast.Expr) string {
+		switch c := canon(x); c {
+		case "view.RecordLen()":
+			return "rl"
+		case "view.FieldLen()":
+			return "fl"
+		default:
+			if b, ok := x.(*ast.BasicLit); ok && b.Kind == token.INT {
+				return b.Value
+			}
+		}
+		die("%s: sub-query test operand `%s` outside the subset", pos(x), src(x))
+		return ""
+	}
+	switch be.Op {
+	case token.LSS:
+		return "decide (" + side(be.X) + " < " + side(be.Y) + ")"
+	case token.LEQ:
+		return "decide (" + side(be.X) + " ≤ " + side(be.Y) + ")"
+	case token.GTR:
+		return "decide (" + side(be.X) + " > " + side(be.Y) + ")"
+	case token.GEQ:
+		return "decide (" + side(be.X) + " ≥ " + side(be.Y) + ")"
+	case token.EQL:
+		return "decide (" + side(be.X) + " = " + side(be.Y) + ")"
+	case token.NEQ:
+		return "decide (" + side(be.X) + " ≠ " + side(be.Y) + ")"
+	}
+	die("%s: sub-query test `%s`", pos(e), src(e))
+	return ""
+}
+
+// subOutcome: the result of a `return` of a sub-query function
+func subOutcome(r *ast.ReturnStmt) string {
+	c := canon(r)
+	switch {
+	case strings.HasPrefix(c, "returnnil,NewSubqueryTooManyFieldsError("):
+		return "SubOut.tooManyFields"
+	case strings.HasPrefix(c, "returnnil,NewSubqueryNoFieldsError("):
+		return "SubOut.noFields"
+	case strings.HasPrefix(c, "returnnil,NewSubqueryTooManyRecordsError("):
+		return "SubOut.tooManyRecords"
+	case c == "returnvalue.NewNull(),nil":
+		return "SubOut.null"
+	case c == "returnnil,nil":
+		return "SubOut.empty"
+	case c == "returnview.RecordSet[0][0][0],nil":
+		return "SubOut.firstCell"
+	case c == "returnlist,nil":
+		return "SubOut.firstColumn"
+	case c == "returnvalue.NewTernary(ternary.FALSE),nil":
+		return "SubOut.tern Tern.F"
+	case c == "returnvalue.NewTernary(ternary.TRUE),nil":
+		return "SubOut.tern Tern.T"
+	case c == "returnvalue.NewTernary(ternary.UNKNOWN),nil":
+		return "SubOut.tern Tern.U"
+	}
+	die("%s: sub-query function returns `%s`", pos(r), src(r))
+	return ""
+}
+
+// subFn: `view, err := Select(ctx, scope, <query>); if err != nil { return nil, err }`, then a chain of
+// `if <length test> { return … }` and a final return (statements that build `list` from the first column are
+// checked to be exactly the copy loop)
+func subFn(out *strings.Builder, ev *ast.File, name, leanName, queryArg string) {
+	fd := findFunc(ev, "", name)
+	l := fd.Body.List
+	if len(l) < 3 || canon(l[0]) != "view,err:=Select(ctx,scope,"+queryArg+")" || canon(l[1]) != "iferr!=nil{returnnil,err}" {
+		die("%s: %s does not start with view, err := Select(ctx, scope, %s) and the error exit", pos(fd), name, queryArg)
+	}
+	fmt.Fprintf(out, "/-- `%s` after the sub-query was evaluated: the outcome by the size of its result -/\n", name)
+	fmt.Fprintf(out, "def %s (fl rl : Nat) : SubOut :=\n", leanName)
+	ind := "  "
+	for _, s := range l[2:] {
+		switch x := s.(type) {
+		case *ast.IfStmt:
+			if x.Init != nil || x.Else != nil || len(x.Body.List) != 1 {
+				die("%s: %s: conditional outside the subset", pos(x), name)
+			}
+			r, ok := x.Body.List[0].(*ast.ReturnStmt)
+			if !ok {
+				die("%s: %s: conditional without return", pos(x), name)
+			}
+			fmt.Fprintf(out, "%sif %s then %s else\n", ind, lenTest(x.Cond), subOutcome(r))
+		case *ast.ReturnStmt:
+			fmt.Fprintf(out, "%s%s\n\n", ind, subOutcome(x))
+		case *ast.AssignStmt:
+			if canon(x) != "list:=make([]value.RowValue,view.RecordLen())" {
+				die("%s: %s: statement `%s`", pos(x), name, src(x))
+			}
+		case *ast.RangeStmt:
+			if canon(x) != "fori:=rangeview.RecordSet{list[i]=value.RowValue{view.RecordSet[i][0][0]}}" {
+				die("%s: %s: the loop is not the copy of the first column", pos(x), name)
+			}
+		default:
+			die("%s: %s: statement %T", pos(s), name, s)
+		}
+	}
+	out.WriteString(leanList(leanName+"Body", "`"+name+"` as a whole", stmtTokens(fd.Body.List)))
+}
+
+func genSubqueryEval(out *strings.Builder) {
+	ev := parseFile("lib/query/eval.go")
+	fd := findFunc(ev, "", "Evaluate")
+	var ts *ast.TypeSwitchStmt
+	for _, s := range fd.Body.List {
+		if x, ok := s.(*ast.TypeSwitchStmt); ok {
+			ts = x
+		}
+	}
+	if ts == nil {
+		die("%s: Evaluate: type switch not found", pos(fd))
+	}
+	var disp []string
+	for _, c := range ts.Body.List {
+		cc := c.(*ast.CaseClause)
+		var types []string
+		for _, t := range cc.List {
+			types = append(types, canon(t))
+		}
+		key := strings.Join(types, ",")
+		if cc.List == nil {
+			key = "default"
+		}
+		callee := "(inline)"
+		if len(cc.Body) == 1 {
+			if as, ok := cc.Body[0].(*ast.AssignStmt); ok && len(as.Rhs) == 1 {
+				if cl, ok := as.Rhs[0].(*ast.CallExpr); ok {
+					callee = canon(cl.Fun)
+				}
+			}
+		}
+		disp = append(disp, key+"→"+callee)
+	}
+	out.WriteString(leanList("evalDispatch", "`Evaluate`: node type → the function that evaluates it, in source order", disp))
+
+	subFn(out, ev, "evalExists", "existsOutcome", "expr.Query.Query")
+	subFn(out, ev, "evalSubqueryForValue", "scalarOutcome", "expr.Query")
+	subFn(out, ev, "evalSubqueryForArray", "arrayOutcome", "expr.Query")
+	for _, name := range []string{"evalIn", "evalAny", "evalAll", "evalArray"} {
+		out.WriteString(leanList(name+"Body", "`"+name+"` as a whole", stmtTokens(findFunc(ev, "", name).Body.List)))
+	}
+	// evalIn: the negated form is `<> ALL`, the plain one `= ANY`
+	in := findFunc(ev, "", "evalIn")
+	var neg *ast.IfStmt
+	for _, s := range in.Body.List {
+		if is, ok := s.(*ast.IfStmt); ok && canon(is.Cond) == "expr.IsNegated()" {
+			neg = is
+		}
+	}
+	if neg == nil || neg.Else == nil {
+		die("%s: evalIn: `if expr.IsNegated() {…} else {…}` not found", pos(in))
+	}
+	quant := func(b *ast.BlockStmt) string {
+		if len(b.List) != 1 {
+			die("%s: evalIn: branch", pos(b))
+		}
+		c := canon(b.List[0])
+		for _, q := range []string{"All", "Any"} {
+			for _, op := range []string{"<>", "=", "!=", "=="} {
+				if strings.HasPrefix(c, "t,err="+q+"(val,list,\""+op+"\",") {
+					return q + " " + op
+				}
+			}
+		}
+		die("%s: evalIn: `%s`", pos(b), c)
+		return ""
+	}
+	out.WriteString(leanList("inQuantifiers", "`evalIn`: [negated form, plain form] as quantifier and operator", []string{quant(neg.Body), quant(neg.Else.(*ast.BlockStmt))}))
+}
+
 func main() {
 	var out strings.Builder
 	out.WriteString("-- GENERATED by /verif/extract/relfacts from lib/query/{header,utils,view,load_view,join,reference_scope,query,inline_tables,comparison,eval}.go — do not edit.\n")
@@ -1381,6 +1836,8 @@ func main() {
 	genJoin(&out)
 	genScope(&out)
 	genLike(&out)
+	genLateral(&out)
+	genSubqueryEval(&out)
 	out.WriteString("end Csvq.Gen\n")
 	fmt.Print(out.String())
 }
